@@ -369,8 +369,8 @@ theorem exEnvs_ok : EnvsOK exEnvs := by
   · exact toyU_facts
   · exact tablesOK_de
   · exact tablesOK_en
-  · exact fun _ => toyStem_bounded _
-  · exact fun _ => toyStem_bounded _
+  · exact toyStemHyp _ (by decide)
+  · exact toyStemHyp _ (by decide)
 
 /-- calls after `create 1 0`: id 2 is created (German), "Abc def" (id 1) and "Straße" (id 2) are added, limit 5 and
     markers `<` `>` are set on id 1, "xy z" is added to id 1 -/
